@@ -6,9 +6,9 @@ ENTRY = dict(
         prop_file="Properties/C01.v",
         corr_files=["Corr/C01Corr.v"],
         theorems=["c01_all_maps", "c01_support_sum", "c01_multilinear", "c01_c05_vocabulary", "c01_roundtrip_partial", "c01_roundtrip_generated_partial", "c01_generated_exact_results", "c01_generated_roundtrip_partial",
-                  "c01_generated_layout", "c01_projection_lists", "c01_generated_roundtrip_dict_partial", "c01_generated_roundtrip_single_partial", "c01_expansion",
-                  "c01_listed_samples", "c01_roundtrip_public_partial", "c01_unseparated_partial", "c01_identity_projection", "c01_subcutoff",
-                  "c01_weights_from_c04", "c01_idle_refusal", "c01_idle_rule", "c01_checker_sound", "c01_hyps_satisfiable", "c01_ex_roundtrip", "c01_ex_generated",
+                  "c01_generated_layout", "c01_projection_lists", "c01_generated_roundtrip_dict_partial", "c01_generated_roundtrip_single_partial", "c01_generated_roundtrip_c04_partial", "c01_expansion",
+                  "c01_listed_samples", "c01_roundtrip_public_partial", "c01_unseparated_partial", "c01_identity_projection", "c01_subcutoff_partial",
+                  "c01_weights_from_c04", "c01_idle_refusal", "c01_idle_refused", "c01_idle_rule", "c01_checker_sound", "c01_hyps_satisfiable", "c01_ex_roundtrip", "c01_ex_generated", "c01_ex_chain",
                   "c01_facts"],
         allowed_axioms=[],
         facts=["nonzero_atol", "c05_formulas", "c10_idle_group_removed"],
@@ -28,15 +28,20 @@ ENTRY = dict(
                    "the sample-major index z*G+m are used identically by producer and consumer, and the C06 model of "
                    "reconstruct_expectation_values (loops; and the public function with its key-set/phase validation) evaluates to "
                    "map Ev observables. The single-circuit call form is the instance one partition / identity projection. Maps dropped "
-                   "below the 1e-14 cut-off: exact identity (value * total weight = uncut value - lost contribution) and the bounds "
+                   "below the 1e-14 cut-off (c01_subcutoff_partial; its identity is about the estimator's sum written with the code's "
+                   "coefficient formula, not about the output of core/reconstruct_parts, and the final |computed - Ev| bound is only a "
+                   "stated consequence): exact identity (value * total weight = uncut value - lost contribution) and the bounds "
                    "total weight >= 1 - D*cutoff, |lost| <= D*cutoff*kappa*max|term| (D = number of dropped maps). The C04 model's "
                    "infinite-budget output satisfies the weights hypothesis when no map has a probability strictly between 0 and the "
                    "cut-off. A request whose observable acts on a qubit that partitioning discards is never answered by the composed "
-                   "pipeline (C10's refusal), otherwise the observables are accepted. The hypotheses are shown satisfiable on a "
+                   "pipeline (c01_idle_refusal) and the first stage returns Refused unless one of its own earlier stages crashed "
+                   "(c01_idle_refused; C10's refusal), otherwise the observables are accepted. The hypotheses are shown satisfiable on a "
                    "concrete problem computed entirely inside Coq (h 0; cx 0 1 cut between A|B with the real six-map cx basis of "
-                   "Model/Bases.v; uncut values from the exact PTM of cx, partition values from the one-qubit PTM/instrument algebra, "
-                   "all 24 subexperiments simulated by the C13 model over the exact state-vector simulator, decoded by the C06 model: "
-                   "<ZZ> = 1, <XX> = 1, <IZ> = 0). END TO END on the implementation (about 230 requests per quick run, 64 of them in eight targeted streams: both call "
+                   "Model/Bases.v; uncut values from the exact PTM of cx, partition values from the one-qubit PTM/instrument algebra; "
+                   "in c01_ex_roundtrip the 24 subexperiments are HAND-WRITTEN programs, in c01_ex_chain they are the circuits the C05 "
+                   "MODEL GENERATES from the two subcircuits with their placeholders; in both they are simulated by the C13 model over "
+                   "the exact state-vector simulator and decoded by the C06 model: <ZZ> = 1, <XX> = 1, <IZ> = 0; c01_ex_chain checks "
+                   "P2+P3 over the generated circuits by computation and applies the chain theorem). END TO END on the implementation (about 230 requests per quick run, 64 of them in eight targeted streams: both call "
                    "forms, 1..4 partitions, exotic/automatic labels, idle qubits, 0..3 cuts, every gate family): the structure the "
                    "implementation produced is checked in Coq against the structural hypotheses of the theorem (sample list = support "
                    "above the cut-off, coefficient = product within 1e-12*kappa, #circuits = #samples x #groups, projections "
@@ -51,7 +56,19 @@ ENTRY = dict(
                    "and that reconstruction's and generation's views of each ObservableCollection have the same number of groups with "
                    "well-formed lookups (C11). Not derived: that partition_problem's subcircuits carry each cut id on exactly two "
                    "placeholders (C10's c10_cuts gives existence of the two halves; uniqueness is only checked by the correspondence). "
-                   "P1-P3 are HYPOTHESES of c01_roundtrip_partial / c01_unseparated_partial / c01_subcutoff (n-qubit Hilbert-space "
+                   "IMPORTANT reading of P2+P3 in the chain theorems: because E_all is the model's own decode of the model's own circuits, "
+                   "the hypothesis term == prod_l E_all is NOT pure physics; it also contains what the code must establish and what other "
+                   "properties cover: that build1 puts the chosen map's operations in the right slot (C14), the measurement suffix and the "
+                   "observable/QPD bit layout (C11/C05), that reconstruction's rparts (bit masks, number of measured bits) describe the same "
+                   "groups as generation's og beyond their COUNT (only the count is a hypothesis), that the circuits dict and the "
+                   "observables dict have the same keys (a partition missing from the observables simply drops out of the product), and "
+                   "that each cut id sits on exactly two placeholders. c01_ex_chain shows this hypothesis satisfiable on a real instance; "
+                   "in general it is tested end to end, not proved. All composition theorems require locs_wf (C06's locs_ok plus: every "
+                   "observable has at least one lookup location; np.mean([]) would be nan while the model's 0/0 is 0). The chain "
+                   "theorems conclude about reconstruct_parts on results_of .. full (the per-partition table before empty entries are "
+                   "dropped; the returned dict is full without its empty entries, c01_generated_layout), not about the label-keyed public "
+                   "reconstruct on the returned dict; c01_generated_roundtrip_c04_partial discharges exact_weights from the C04 model. "
+                   "P1-P3 are HYPOTHESES of c01_roundtrip_partial / c01_unseparated_partial / c01_subcutoff_partial (n-qubit Hilbert-space "
                    "semantics is not formalised): what is proved is the algebra connecting the modelled bookkeeping to the uncut value "
                    "given those postulates; that the real subexperiments satisfy them is tested numerically on every run, not proved. "
                    "The numeric comparison is made by the harness and enters the Coq case as one boolean; the property-level oracle "
